@@ -77,7 +77,12 @@ Pfx(sk) == CASE sk = "plain" -> "" [] sk = "raw" -> "r" [] sk = "bytes" -> "b" [
 Q(q)    == IF q = "q3" THEN "'''" ELSE "'"
 IsRaw(sk) == sk \in {"raw", "rb"}
 (* what the end of a physical line inside a string literal contributes to the value *)
-EOL(sk, b) == IF b = "bs" THEN (IF IsRaw(sk) THEN BS \o "\n" ELSE "") ELSE "\n"
+(* ("bsws": a backslash followed by a blank before the line end - not a continuation anywhere; only written *)
+(*  in comments and raw strings, elsewhere it would be an invalid escape sequence)                         *)
+EOL(sk, b) == CASE b = "bs"   -> (IF IsRaw(sk) THEN BS \o "\n" ELSE "")
+                [] b = "bsws" -> BS \o " \n"
+                [] OTHER      -> "\n"
+LineEnd(b) == CASE b = "bs" -> BS [] b = "bsws" -> BS \o " " [] OTHER -> ""
 
 Line(k, a, b, c, d, l, ws, dws, rest) ==
   [k |-> k, a |-> a, b |-> b, c |-> c, d |-> d, l |-> l, txt |-> ws \o rest, ded |-> dws \o rest]
@@ -173,9 +178,9 @@ AddOpen == /\ InBody /\ AtStmt /\ 0 \in StmtLevels /\ nb + 1 < MaxBody /\ Pay(1)
            /\ Put(Line("open", "", "", "", "", 0, Ind(BodyLvl(0)), Ind(1), "if a:"))
            /\ logical' = Append(logical, Stmt(0, "if")) /\ lvl' = 1 /\ need' = TRUE
            /\ UNCHANGED <<phase, unit, ctx, mode, strs, cur>>
-AddComment(a, b) == /\ InBody /\ AtStmt /\ Pay(1 + B2N(a # "in") + B2N(b = "bs"))
+AddComment(a, b) == /\ InBody /\ AtStmt /\ Pay(1 + B2N(a # "in") + B2N(b # ""))
                     /\ Put(Line("comment", a, b, "", "", lvl, Flex(a, BodyLvl(lvl)), FlexDed(a, BodyLvl(lvl)),
-                                "# c" \o N \o (IF b = "bs" THEN " " \o BS ELSE "")))
+                                "# c" \o N \o (IF b = "" THEN "" ELSE " " \o LineEnd(b))))
                     /\ UNCHANGED <<phase, unit, ctx, mode, lvl, need, logical, strs, cur>>
 AddBlank(a) == /\ InBody /\ AtStmt /\ Pay(1 + B2N(a # "empty"))
                /\ Put(Line("blank", a, "", "", "", lvl, IF a = "ws" THEN Ind(BodyLvl(lvl)) ELSE "",
@@ -187,7 +192,7 @@ AddCodeBs(l) == /\ InBody /\ AtStmt /\ l \in StmtLevels /\ nb + 1 < MaxBody /\ P
                 /\ logical' = Append(logical, Stmt(l, "code")) /\ lvl' = l /\ need' = FALSE
                 /\ mode' = [m |-> "cont", sk |-> "", q |-> ""]
                 /\ UNCHANGED <<phase, unit, ctx, strs, cur>>
-AddCont(a, b) == /\ InBody /\ mode.m = "cont" /\ (b = "bs" => nb + 1 < MaxBody)
+AddCont(a, b) == /\ InBody /\ mode.m = "cont" /\ b \in {"", "bs"} /\ (b = "bs" => nb + 1 < MaxBody)
                  /\ Pay(B2N(a # "deep") + B2N(b = "bs"))
                  /\ Put(Line("contline", a, b, "", "", lvl, Flex(a, BodyLvl(lvl)), FlexDed(a, BodyLvl(lvl)),
                              N \o (IF b = "bs" THEN " + " \o BS ELSE "")))
@@ -198,11 +203,12 @@ AddCont(a, b) == /\ InBody /\ mode.m = "cont" /\ (b = "bs" => nb + 1 < MaxBody)
 AddStrOpen(l, sk, q, c, d) ==
   /\ InBody /\ AtStmt /\ l \in StmtLevels /\ nb + 1 < MaxBody
   /\ (q = "q1" => c = "bs")                       \* a single-quoted literal continues only by backslash-newline
-  /\ Pay(1 + B2N(sk # "plain") + B2N(q = "q1") + B2N(c = "bs" /\ q = "q3") + B2N(d = "expr"))
+  /\ (c = "bsws" => IsRaw(sk))
+  /\ Pay(1 + B2N(sk # "plain") + B2N(q = "q1") + B2N(c # "" /\ q = "q3") + B2N(d = "expr"))
   /\ LET first == "t" \o N \o (IF sk = "f" THEN "{a}" ELSE "")
      IN /\ Put(Line("stropen", sk, q, c, d, l, Ind(BodyLvl(l)), Ind(1 + l),
                     (IF d = "asg" THEN "v" \o N \o " = " ELSE "") \o Pfx(sk) \o Q(q) \o first
-                      \o (IF c = "bs" THEN BS ELSE "")))
+                      \o LineEnd(c)))
         /\ cur' = first \o EOL(sk, c)
   /\ logical' = Append(logical, Stmt(l, "str")) /\ lvl' = l /\ need' = FALSE
   /\ mode' = [m |-> "str", sk |-> sk, q |-> q]
@@ -210,9 +216,10 @@ AddStrOpen(l, sk, q, c, d) ==
 AddStrMid(a, b) ==
   /\ InBody /\ mode.m = "str" /\ nb + 1 < MaxBody
   /\ (mode.q = "q1" => b = "bs")
-  /\ Pay(B2N(a # "in") + B2N(b = "bs" /\ mode.q = "q3"))     \* a plain interior line only costs a line
+  /\ (b = "bsws" => IsRaw(mode.sk))
+  /\ Pay(B2N(a # "in") + B2N(b # "" /\ mode.q = "q3"))     \* a plain interior line only costs a line
   /\ LET ws == Flex(a, BodyLvl(lvl))
-         rest == "m" \o N \o (IF b = "bs" THEN BS ELSE "")
+         rest == "m" \o N \o LineEnd(b)
      IN /\ Put(Line("strmid", a, b, "", "", lvl, ws, ws, rest))   \* dedent must not touch it
         /\ cur' = cur \o ws \o "m" \o N \o EOL(mode.sk, b)
   /\ logical' = Extend
@@ -238,9 +245,9 @@ Next == \/ \E k \in CtxKinds : AddCtx(k)
         \/ \E a \in SigInd : AddSigMid(a) \/ AddSigBsEnd(a) \/ AddDecoArg(a)
         \/ \E l \in 0 .. 1 : AddCode(l) \/ AddCodeBs(l)
         \/ AddOpen
-        \/ \E a \in FlexAll, b \in {"", "bs"} : AddComment(a, b) \/ AddCont(a, b) \/ AddStrMid(a, b)
+        \/ \E a \in FlexAll, b \in {"", "bs", "bsws"} : AddComment(a, b) \/ AddCont(a, b) \/ AddStrMid(a, b)
         \/ \E a \in {"empty", "ws"} : AddBlank(a)
-        \/ \E l \in 0 .. 1, sk \in StrKinds, q \in Quotes, c \in {"", "bs"}, d \in {"asg", "expr"} :
+        \/ \E l \in 0 .. 1, sk \in StrKinds, q \in Quotes, c \in {"", "bs", "bsws"}, d \in {"asg", "expr"} :
                AddStrOpen(l, sk, q, c, d)
         \/ \E a \in {"in", "zero"} : AddStrClose(a)
         \/ Finish
